@@ -468,13 +468,13 @@ theorem distProj_exact (ncol : Nat) (xres yres : Int) (i j : Nat)
     (h : distProjExact ncol xres yres i j = true) :
     0 ≤ distProj ncol xres yres i j ∧
     distProj ncol xres yres i j * distProj ncol xres yres i j =
-      (yres * (absDiff (i / ncol) (j / ncol) : Nat)) * (yres * (absDiff (i / ncol) (j / ncol) : Nat)) +
-      (xres * (absDiff (i % ncol) (j % ncol) : Nat)) * (xres * (absDiff (i % ncol) (j % ncol) : Nat)) := by
+      (yres * (absDiff_c11 (i / ncol) (j / ncol) : Nat)) * (yres * (absDiff_c11 (i / ncol) (j / ncol) : Nat)) +
+      (xres * (absDiff_c11 (i % ncol) (j % ncol) : Nat)) * (xres * (absDiff_c11 (i % ncol) (j % ncol) : Nat)) := by
   simp only [distProjExact, beq_iff_eq] at h
   refine ⟨by simp [distProj], ?_⟩
   unfold distProj
-  have hnn : 0 ≤ (yres * (absDiff (i / ncol) (j / ncol) : Nat)) * (yres * (absDiff (i / ncol) (j / ncol) : Nat)) +
-      (xres * (absDiff (i % ncol) (j % ncol) : Nat)) * (xres * (absDiff (i % ncol) (j % ncol) : Nat)) :=
+  have hnn : 0 ≤ (yres * (absDiff_c11 (i / ncol) (j / ncol) : Nat)) * (yres * (absDiff_c11 (i / ncol) (j / ncol) : Nat)) +
+      (xres * (absDiff_c11 (i % ncol) (j % ncol) : Nat)) * (xres * (absDiff_c11 (i % ncol) (j % ncol) : Nat)) :=
     Int.add_nonneg (int_mul_self_nonneg _) (int_mul_self_nonneg _)
   have hsq : ((distProjSq ncol xres yres i j : Nat) : Int) = _ := Int.toNat_of_nonneg hnn
   rw [← hsq]; exact_mod_cast h
